@@ -25,6 +25,9 @@ ENGINE_OF = {
 }
 
 EXIT_OK, EXIT_VIOLATION, EXIT_HARNESS = 0, 1, 2
+# per-run digests are kept only when asked for (selftest-determinism); big
+# batches fold them into an order-independent 48-bit checksum instead
+KEEP_DIGESTS = os.environ.get('ODLSIM_KEEP_DIGESTS') == '1'
 
 
 def engine_for(prop):
@@ -67,7 +70,7 @@ def _work(args):
     agg = {
         'runs': 0, 'rejects': 0, 'stats': Counter(), 'cover': set(),
         'violations': [], 'errors': [], 'samples': [], 'digests': [],
-        'start': start, 'count': count,
+        'start': start, 'count': count, 'xor': 0,
     }
     per_fp = Counter()
     for r in range(start, start + count):
@@ -86,7 +89,10 @@ def _work(args):
         agg['runs'] += 1
         agg['stats'].update(ctx.stats)
         agg['cover'] |= ctx.cover
-        agg['digests'].append((r, ctx.digest()))
+        if KEEP_DIGESTS:
+            agg['digests'].append((r, ctx.digest()))
+        else:
+            agg['xor'] ^= int(ctx.digest()[:12], 16) ^ (r * 0x9E3779B97F4A7C15 & 0xFFFFFFFFFFFF)
         if kind == 'reject':
             agg['rejects'] += 1
         elif kind == 'violation':
@@ -256,7 +262,7 @@ def run_batch(prop, tier='quick', batch_seed=0, budget_s=None, nruns=None,
              for s in range(0, nruns, chunk)]
     total = {'runs': 0, 'rejects': 0, 'stats': Counter(), 'cover': set(),
              'violations': [], 'errors': [], 'samples': [], 'digests': [],
-             'viol_counts': Counter()}
+             'viol_counts': Counter(), 'xor': 0}
     ctx_mp = multiprocessing.get_context('fork')
     if workers <= 1:
         results = map(_work, tasks)
@@ -275,6 +281,7 @@ def run_batch(prop, tier='quick', batch_seed=0, budget_s=None, nruns=None,
             total['violations'].extend(agg['violations'])
             total['errors'].extend(agg['errors'])
             total['digests'].extend(agg['digests'])
+            total['xor'] ^= agg.get('xor', 0)
             total['viol_counts'].update(agg['viol_counts'])
             if len(total['samples']) < 3:
                 total['samples'].extend(agg['samples'][:1])
@@ -377,6 +384,8 @@ def run_batch(prop, tier='quick', batch_seed=0, budget_s=None, nruns=None,
 
 
 def batch_digest(total):
+    if not total['digests']:
+        return 'xor48:%012x' % total.get('xor', 0)
     h = hashlib.sha256()
     for r, d in sorted(total['digests']):
         h.update(('%d:%s;' % (r, d)).encode())
